@@ -324,6 +324,14 @@ impl<'tcx> Cx<'tcx> {
                                                             lits.push(t);
                                                         }
                                                     }
+                                                    // a field-less enum variant (`&Sign::Neg`)
+                                                    if let Rvalue::Aggregate(_, ops) = &bx.1 {
+                                                        if ops.is_empty() {
+                                                            let mut t = format!("{:?}", &bx.1);
+                                                            t.truncate(120);
+                                                            lits.push(t);
+                                                        }
+                                                    }
                                                 }
                                             }
                                         }
